@@ -205,8 +205,8 @@ inductive RecvRes where
   | item (x : Nat) | wouldBlock | closed | eos
   deriving DecidableEq, Repr
 
-/-- body of `receive_nowait()` on receive handle `h` (memory.py:99-113); the caller records
-the delivery -/
+/-- body of `receive_nowait()` on receive handle `h` (memory.py:99-113); a returned item is
+recorded as delivered here (both callers return it to the user in the same segment) -/
 def recvCore (s : State) (h : Nat) : State × RecvRes :=
   if s.closedR h = true then (s, .closed)
   else
